@@ -207,37 +207,49 @@ class Case(Enum):
     pass
 
 
-def run_one(seed, tier):
+def run_one(seed, tier, explicit=None):
     rng = subseed(seed, 'universe')
     prof = U.Profile.draw(rng)
     prof['max_entries'] = min(prof['max_entries'], 4)
     prof['max_synsets'] = min(prof['max_synsets'], 4)
     prof['special'] = rng.choice([0.15, 0.5])
-    u = U.generate(rng, prof)
+    u = explicit['universe'] if explicit else U.generate(rng, prof)
     prng = subseed(seed, 'plan')
     sim = Case(u, seed, PROP, ['installed'])
+    pre_added = []
     stats = {'evals': 0, 'kinds': {}, 'distinct': set(), 'must_reject': 0, 'accepted': 0}
     violation = None
     compare.KNOWN_HITS.clear()
     compare.ENABLED_FINDINGS.clear()
     compare.ENABLED_FINDINGS.update(enabled_findings())
     tgt = None
+    quote, indent = '"', True
     try:
         try:
             # a populated database that must not change
             order = list(u['resources'])
             tgt = prng.choice(order)
+            if explicit:
+                tgt = sim.res[explicit['target']]
             for r in order:
                 if r is tgt:
                     continue
-                if sim.m.plan_add(r['lexicons']) and prng.random() < 0.7:
+                if explicit:
+                    go = r['name'] in explicit['pre_added']
+                else:
+                    go = bool(sim.m.plan_add(r['lexicons'])) and prng.random() < 0.7
+                if go:
+                    pre_added.append(r['name'])
                     sim.do({'op': 'add', 'res': r['name']})
             sim.step += 1
             wn._db.connect()
             sim.save()
             pre = observe.raw_dump(sim.W.dbpath())
             quote = prng.choice(['"', "'"])
-            data = xmlout.resource_xml(u, tgt, quote=quote, indent=prng.random() < 0.8)
+            indent = prng.random() < 0.8
+            if explicit:
+                quote, indent = explicit['quote'], explicit['indent']
+            data = xmlout.resource_xml(u, tgt, quote=quote, indent=indent)
             text = data.decode('utf-8')
             wd = sim.W.workdir('c20')
             counter = [0]
@@ -284,6 +296,8 @@ def run_one(seed, tier):
                     _, aexc = sim.call(wn.add, path, progress_handler=SimHandler)
                 finally:
                     sim.W.end_op()
+                sim.W.log(mutant=name, must_reject=must_reject,
+                          add=type(aexc).__name__ if aexc else None)
                 conn = wn._db.pool.get(wn.config.database_path)
                 if conn is not None and conn.in_transaction:
                     raise Violation(PROP, 'open-transaction', 'pooled connection left inside a '
@@ -331,6 +345,12 @@ def run_one(seed, tier):
                     raise Violation(PROP, 'scan-vs-load', 'scan_lexicons() disagrees with '
                                     'load()', dict(detail, scan=got, load=want))
 
+            if explicit and explicit.get('mutant'):
+                import base64 as _b64
+                mu = explicit['mutant']
+                feed(mu['name'], _b64.b64decode(mu['bytes_b64']), mu['must_reject'],
+                     kind=mu.get('container', 'xml'))
+                raise StopIteration
             # 0. the valid file itself (both as written and after a dump round trip)
             feed('valid', data, False)
             res, exc = sim.call(wn.lmf.load, os.path.join(wd, 'm.xml'), progress_handler=None)
@@ -371,11 +391,18 @@ def run_one(seed, tier):
                 full = {'gz': gzip.compress(data, mtime=0), 'xz': lzma.compress(data)}.get(kind)
                 feed('container:' + name, blob, not container_readable(kind, blob, data),
                      kind=kind)
+        except StopIteration:
+            pass
         except Violation as v:
             violation = v.to_json()
         except SimBudget as b:
             violation = Violation(PROP, 'termination', 'statement budget exhausted',
                                   {'msg': str(b)}).to_json()
+        mutant = None
+        if violation and (violation.get('detail') or {}).get('mutant_bytes_b64'):
+            dt = violation['detail']
+            mutant = {'name': dt['mutant'], 'bytes_b64': dt['mutant_bytes_b64'],
+                      'must_reject': dt['must_reject'], 'container': dt.get('container', 'xml')}
         return {
             'seed': seed, 'violation': violation, 'digest': sim.W.event_digest(),
             'ops': stats['evals'], 'faults': stats['kinds'], 'states': [],
@@ -385,8 +412,9 @@ def run_one(seed, tier):
             'known_hits': dict(compare.KNOWN_HITS), 'nontrivial': stats['evals'] > 10,
             'sample': {'file': tgt and tgt['name'], 'lexicons': tgt and tgt['lexicons'],
                        'lmf_version': tgt and tgt['lmf_version'], 'mutant_kinds': stats['kinds']},
-            'replay': {'universe': u, 'note': 'mutants are enumerated from the seed-derived '
-                       'valid file; the violation detail names the mutant'},
+            'replay': {'universe': u, 'target': tgt and tgt['name'], 'pre_added': pre_added,
+                       'quote': quote if tgt else '"', 'indent': indent if tgt else True,
+                       'mutant': mutant},
         }
     finally:
         sim.close()
@@ -425,7 +453,7 @@ def raw_variant(got, want):
 
 
 def replay(obj):
-    return run_one(obj['seed'], 'quick')
+    return run_one(obj['seed'], 'quick', explicit=obj)
 
 
 def coverage_extra(results):
